@@ -63,6 +63,13 @@ Definition blab_eqb (p q : Z * Z * option bool) : bool :=
   let '(a, b, s) := p in let '(c, d, u) := q in (a =? c) && (b =? d) && option_eqb Bool.eqb s u.
 Definition tbl_ok centers ct bonds exp := pyres_eqb (list_eqb (option_eqb ref_eqb)) (to_bond_labels centers ct bonds) exp.
 Definition fbl_ok hs ct rbonds exp := pyres_eqb (list_eqb blab_eqb) (from_bond_labels (isH_of hs) ct rbonds) exp.
+Definition pmem (k : Z * Z) (l : list (Z * Z)) : bool := existsb (fun q => (fst k =? fst q) && (snd k =? snd q)) l.
+Definition eraser (ea : list Z) (eb : list (Z * Z)) (l : stereo_labels) : stereo_labels :=
+  (map (fun p => (fst p, if zmem (fst p) ea then None else snd p)) (fst l),
+   map (fun p => (fst p, if pmem (fst p) eb then None else snd p)) (snd l)).
+Definition slab_eqb (x y : stereo_labels) : bool := list_eqb lab_eqb (fst x) (fst y) && list_eqb blab_eqb (snd x) (snd y).
+Definition final_ok ea eb hs th ct nb tags rbonds exp :=
+  pyres_eqb slab_eqb (from_stereo_final (eraser ea eb) (isH_of hs) th ct (nb_of nb) tags rbonds) exp.
 Definition rbo_ok t exp := pyres_eqb Z.eqb (rdkit_bond_order t) exp.
 Definition bt_ok o exp := pyres_eqb String.eqb (bond_type o) exp.
 '''
@@ -474,6 +481,23 @@ def corr_from(cs, tag, rd):
         cs.add_big(f'fbl_ok {lst(hs, zraw)} {lst(list(pre["ct"].items()), lambda kv: tup(zraw(kv[0][0]), zraw(kv[0][1]), env_term(kv[1])))} '
                    f'{lst(rb)} (Ok {lst(ex)})', (tag, 'from-bond-labels-whole-molecule'))
         ck.count('from-bond-labels-whole-molecule')
+    if same_count and m is not None and (tap.want_th or tap.want_ct or cs.rng.random() < 0.1):
+        # the result of the whole call: labels after fix_structure / fix_stereo == the model with fix_stereo := "erase what was erased"
+        fin_a = {n: a.stereo for n, a in m.atoms()}
+        fin_b = {frozenset((n, mm)): bd.stereo for n, mm, bd in m.bonds()}
+        er_a = [n for n in fin_a if stereo_of[n] is not None and fin_a[n] is None]
+        er_b = [(bi + 1, ei + 1) for bi, ei, _ in rsnap['bonds']
+                if by_pair[frozenset((bi + 1, ei + 1))][1] is not None and fin_b.get(frozenset((bi + 1, ei + 1))) is None]
+        rb = [tup(zraw(bi), zraw(ei), cstr(name), zraw(sa[0] if len(sa) == 2 else 0), zraw(sa[1] if len(sa) == 2 else 0))
+              for (bi, ei, _), (name, sa) in zip(rsnap['bonds'], rsnap['bst'])]
+        exa = lst([tup(zraw(n), opt(fin_a[n], b)) for n in fin_a])
+        exb = lst([tup(zraw(bi + 1), zraw(ei + 1), opt(fin_b.get(frozenset((bi + 1, ei + 1))), b)) for bi, ei, _ in rsnap['bonds']])
+        cs.add_big(f'final_ok {lst(er_a, zraw)} {lst(er_b, pair_term)} {lst(hs, zraw)} '
+                   f'{lst(list(pre["th"].items()), lambda kv: tup(zraw(kv[0]), lst(kv[1], zraw)))} '
+                   f'{lst(list(pre["ct"].items()), lambda kv: tup(zraw(kv[0][0]), zraw(kv[0][1]), env_term(kv[1])))} '
+                   f'{lst(list(enumerate(rsnap["tags"])), lambda kv: tup(zraw(kv[0]), lst(kv[1][1], zraw)))} {lst([cstr(name) for name, _ in rsnap["tags"]])} '
+                   f'{lst(rb)} (Ok ({exa}, {exb}))', (tag, 'from-final-labels', er_a, er_b))
+        ck.count('from-final-labels' + (':some erased by fix_stereo' if er_a or er_b else ''))
     spare = 2
     for k, (name, sa) in enumerate(rsnap['bst']):
         bi, ei, _ = rsnap['bonds'][k]
